@@ -75,6 +75,7 @@ mut("c11_stream_unregisters_before_it_cancels", "C11", "server.go", "\tdefer han
 mut("c11_client_owner_unregisters_without_signal", "C11", "internal/client/multiplexer.go", "\t\tclose(gone)\n\t\trm.unregisterHandler(streamId)", "\t\trm.unregisterHandler(streamId)")
 mut("c11_client_stream_teardown_without_signal", "C11", "internal/client/multiplexer.go", "\t\tgoneOnce.Do(func() { close(gone) })\n", "\t\t_ = &goneOnce\n")
 mut("c14_refused_open_keeps_its_context", "C14", "server.go", "\t\tcancel() // no stream will use this context\n", "")
+mut("c19_new_connection_starts_idle", "C19", "http.go", "\t\tconn.bumpActivity()\n\n", "")
 mut("c10_serve_no_drain", "C10", "server.go", "\th.cancelAndWaitForStreams()\n", "")
 
 only = sys.argv[1] if len(sys.argv) > 1 else ""
